@@ -5,6 +5,7 @@
 package rtrip
 
 import (
+	"context"
 	"database/sql"
 	"database/sql/driver"
 	"encoding/hex"
@@ -14,6 +15,8 @@ import (
 	"reflect"
 	"strconv"
 	"time"
+
+	"gorm.io/gorm/schema"
 )
 
 // custom scanner/valuer types (predeclared: reflect.StructOf cannot attach methods)
@@ -38,6 +41,30 @@ func (u *UpperStr) Scan(v interface{}) error {
 	}
 	*u = UpperStr(s)
 	return nil
+}
+
+// KVSer serializes itself (schema.SerializerInterface on the field's own type, declared by value);
+// like many hand-written scanners it leaves the receiver untouched for NULL.
+type KVSer map[string]string
+
+func (k *KVSer) Scan(ctx context.Context, field *schema.Field, dst reflect.Value, dbValue interface{}) error {
+	switch v := dbValue.(type) {
+	case nil:
+		return nil
+	case []byte:
+		return json.Unmarshal(v, k)
+	case string:
+		return json.Unmarshal([]byte(v), k)
+	}
+	return fmt.Errorf("KVSer: %T", dbValue)
+}
+
+func (k KVSer) Value(ctx context.Context, field *schema.Field, dst reflect.Value, fieldValue interface{}) (interface{}, error) {
+	if k == nil {
+		return nil, nil
+	}
+	b, err := json.Marshal(map[string]string(k))
+	return string(b), err
 }
 
 type Point struct{ X, Y int }
@@ -338,6 +365,18 @@ var Kinds = []kind{
 		Tok:    func(v interface{}) string { p := v.(Point); return fmt.Sprintf("p:%d;%d", p.X, p.Y) },
 		MapTok: func(v interface{}) (string, bool) { return "", false },
 		Zero:   func(v interface{}) bool { return v.(Point) == Point{} }},
+	{Name: "kvser", Type: reflect.TypeOf(KVSer(nil)), SQLType: "text", NGen: 4,
+		Gen: func(k int) interface{} { return []KVSer{nil, {"a": "1"}, {"b": "2", "c'": "3"}, {"d": "ü"}}[k%4] },
+		Tok: func(v interface{}) string {
+			m := v.(KVSer)
+			if len(m) == 0 {
+				return "kv:empty"
+			}
+			b, _ := json.Marshal(map[string]string(m))
+			return "kv:" + string(b)
+		},
+		MapTok: func(v interface{}) (string, bool) { return "", false },
+		Zero:   func(v interface{}) bool { return v.(KVSer) == nil }},
 	{Name: "json_map", Type: reflect.TypeOf(map[string]int(nil)), SQLType: "text", Tag: "serializer:json", NGen: 3,
 		Gen: func(k int) interface{} { return []map[string]int{nil, {}, {"a": 1, "b'c": -2}}[k%3] },
 		Tok: func(v interface{}) string {
